@@ -551,16 +551,60 @@ impl<'a, H: HK> Runner<'a, H> {
     fn commit(&mut self, i: usize, c: &CommitSpec) -> Result<StepOutcome, Violation> {
         let batch = gen::resolve_batch(self.hist.salt, &c.batch, &self.model.cur, self.ver, &mut self.budget);
         self.ver += 1;
+        // An overlay chain of n: overlay 0 carries the batch; overlay j > 0 carries the same spec with
+        // its op kinds rotated j times (Delete -> blind Write -> ReadDelete -> ReadWrite -> Delete),
+        // resolved against the view left by overlay j-1 - so chains delete, re-create and re-delete the
+        // very keys their ancestors touched.
         let parts: Vec<Vec<(Key, MOp)>> = match c.via {
             Via::Session => vec![batch.clone()],
             Via::Overlays(n) => {
                 let n = n.max(1) as usize;
-                let mut parts = vec![Vec::new(); n];
-                for (j, e) in batch.iter().enumerate() {
-                    parts[j % n].push(e.clone());
+                let mut parts = vec![batch.clone()];
+                let mut view = crate::model::apply(H::KIND, &self.model.cur, &batch);
+                for j in 1..n {
+                    let mut spec = c.batch.clone();
+                    for e in spec.entries.iter_mut() {
+                        for _ in 0..j {
+                            e.kind = match e.kind {
+                                gen::OpKind::Delete => gen::OpKind::Write,
+                                gen::OpKind::Write => gen::OpKind::ReadDelete,
+                                gen::OpKind::ReadDelete => gen::OpKind::ReadWrite,
+                                gen::OpKind::ReadWrite => gen::OpKind::Delete,
+                                gen::OpKind::Read => gen::OpKind::Read,
+                            };
+                        }
+                    }
+                    spec.bulk = match spec.bulk {
+                        Some(gen::Bulk::Delete { seed, permille }) => Some(gen::Bulk::Insert {
+                            seed,
+                            n: (permille / 8).max(1),
+                            cluster: 0,
+                            plen: 0,
+                            vlo: 1,
+                            vhi: 40,
+                        }),
+                        Some(gen::Bulk::Insert { seed, .. }) => Some(gen::Bulk::Delete { seed, permille: 300 }),
+                        other => other,
+                    };
+                    let part = gen::resolve_batch(self.hist.salt, &spec, &view, self.ver, &mut self.budget);
+                    self.ver += 1;
+                    view = crate::model::apply(H::KIND, &view, &part);
+                    parts.push(part);
                 }
                 parts
             }
+        };
+        let batch: Vec<(Key, MOp)> = if parts.len() == 1 {
+            batch
+        } else {
+            // for classification / touched keys: the union, last op per key
+            let mut m: BTreeMap<Key, MOp> = BTreeMap::new();
+            for p in &parts {
+                for (k, op) in p {
+                    m.insert(*k, op.clone());
+                }
+            }
+            m.into_iter().collect()
         };
         // classification
         for (k, op) in &batch {
